@@ -286,7 +286,8 @@ Definition cls_ring_in_unit (c : chain) : bool :=
   existsb (fun s => (2 <=? bm_val (snd s))%nat && existsb (fun it => negb (is_nil (i_rings it))) (unit_items s)) (sites c).
 (** a nested branch inside a multiplied unit, EXCEPT the one shape the current code expands
     correctly: multiplier 2, anchor not the very first node (key 0 is falsy in `if prev_anchor:`),
-    exactly one nested branch inside the unit, itself not multiplied *)
+    the multiplied branch is the first branch of its anchor (nodes of earlier sibling branches shift the
+    offset arithmetic), exactly one nested branch inside the unit, itself not multiplied *)
 Definition nested_any (c : chain) : bool :=
   existsb (fun s => (2 <=? bm_val (snd s))%nat && negb (is_nil (sites (b_chain (snd s))))) (sites c).
 Definition nested_bad (anchor0 : bool) (br : branch) : bool :=
@@ -295,7 +296,7 @@ Definition nested_bad (anchor0 : bool) (br : branch) : bool :=
   && ((3 <=? bm_val br)%nat || anchor0 || (2 <=? length inner)%nat
       || existsb (fun s => is_some (b_mult (snd s))) inner).
 Definition cls_nested_in_unit (c : chain) : bool :=
-  existsb (fun s => nested_bad false (snd s)) (sites c)
+  existsb (fun s => nested_bad (negb (Nat.eqb (snd (fst s)) 0)) (snd s)) (sites c)
   || match c with
      | it0 :: _ => (mult_val (i_mult it0) <=? 1)%nat && existsb (nested_bad true) (i_branches it0)
      | [] => false
